@@ -446,6 +446,9 @@ template <typename T, int K> static bool quat_one(const T* q, const T* p, const 
   MCHK("quat + quat", 0, aq + ap, pq + pp, pq + pp, EXACT, 0, false, zero) MCHK("quat - quat", 0, aq - ap, pq - pp, pq - pp, EXACT, 0, false, zero) MCHK("quat * scalar", 0, aq * s, pq * s, pq * s, EXACT, 0, false, zero) MCHK("scalar * quat", 0, s * aq, s * pq, s * pq, EXACT, 0, false, zero)
   MCHK("-quat", 0, -aq, -pq, -pq, EXACT, 0, false, zero) MCHK("conjugate", 0, glm::conjugate(aq), glm::conjugate(pq), glm::conjugate(pq), EXACT, 0, false, zero)
   if (s != 0) MCHK("quat / scalar", 0, aq / s, pq / s, pq / s, EXACT, 0, false, zero)
+  { QA a1 = aq, a2 = aq, a3 = aq, a4 = aq; QP p1 = pq, p2 = pq, p3 = pq, p4 = pq; a1 *= s; p1 *= s; a2 += ap; p2 += pp; a3 -= ap; p3 -= pp; a4 *= ap; p4 *= pp;     // compound forms route through the compute_quat_* kernels
+    MCHK("quat *= scalar", 0, a1, p1, p1, EXACT, 0, false, zero) MCHK("quat += quat", 0, a2, p2, p2, EXACT, 0, false, zero) MCHK("quat -= quat", 0, a3, p3, p3, EXACT, 0, false, zero) MCHK("quat *= quat", 0, a4, p4, p4, TOL, 16, false, [&](int) { return nq * np; })
+    if (s != 0) { QA a5 = aq; QP p5 = pq; a5 /= s; p5 /= s; MCHK("quat /= scalar", 0, a5, p5, p5, EXACT, 0, false, zero) } }
   { bool ea = aq == ap, ep = pq == pp, na = aq != ap, np2 = pq != pp, sa = aq == aq; Ctx c{o, "quat == / != quat", 4, K, 0, 0, 0}; checked += 3; if (ea != ep || na != np2 || !sa) return fail(c, 0, (uint64_t)ea | ((uint64_t)na << 1) | ((uint64_t)sa << 2), (uint64_t)ep | ((uint64_t)np2 << 1) | 4, "quaternion comparison verdicts must be identical"); }
   MCHK("dot(quat, quat)", 0, glm::dot(aq, ap), glm::dot(pq, pp), glm::dot(pq, pp), TOL, 8, false, [&](int) { return adot(q, p, 4); })
   MCHK("quat * quat", 0, aq * ap, pq * pp, pq * pp, TOL, 16, false, [&](int) { return nq * np; })
